@@ -27,6 +27,7 @@ import PrqlModel.Model.Rel
 import PrqlModel.Lemmas.RelBlock
 import PrqlModel.Lemmas.RelBlockPerm
 import PrqlModel.Lemmas.RelBlockSplit
+import PrqlModel.Lemmas.Reorder
 namespace Props.C01
 open Gen.Split Model.Split Lemmas.Split
 
@@ -346,5 +347,74 @@ theorem sum_all_null_is_zero (n : Nat) : aggVal .sum (List.replicate n .null) = 
     intro a ha
     rw [List.eq_of_mem_replicate ha]; decide
   simp [aggVal, this]
+
+/-! ## the `reorder` pass of the back end (mirror: Model.Reorder, tied by replaying every recorded call)
+
+Before the pipeline is split, every Compute is pulled in front of the Sorts - and, if it is a plain (row-wise)
+expression, the Takes - directly in front of it, so that it lands in the same SELECT. -/
+section Reorder
+open Model.Reorder Lemmas.Reorder
+
+/-- **reorder_moves_only_over_sorts_and_takes.** One step of the pass takes the processed pipeline `acc` (most recent
+transform first) apart into the transforms the compute passes and the rest; it passes only Sorts and - when it is
+plain - Takes, keeps everything else in place and in order, and never passes position 0. For any transform type. -/
+theorem reorder_moves_only_over_sorts_and_takes {α} (cls : α → Cls) (plain : Bool) (c : α) (acc : List α) :
+    ∃ moved rest, acc = moved ++ rest ∧ bubbleRev cls plain c acc = moved ++ c :: rest ∧
+      (∀ x ∈ moved, cls x = .sort ∨ (cls x = .take ∧ plain = true)) ∧ (acc ≠ [] → rest ≠ []) := by
+  obtain ⟨mv, rs, h1, h2, h3, h4⟩ := bubbleRev_spec cls plain c acc
+  refine ⟨mv, rs, h1, h2, ?_, h4⟩
+  intro x hx
+  have := h3 x hx
+  cases hc : cls x <;> simp_all [movable]
+
+/-- a compute that is not plain (window function, aggregation, CASE) is never moved over a Take -/
+theorem nonplain_never_passes_take : movable false .take = false := rfl
+
+/-- **reorder_step_keeps_rows.** On the reference semantics (the row functions of Model.Rel): with the part in front
+evaluated to rows of width `w`, pulling a row-wise derive in front of the sorts (keys over the existing columns) and
+takes directly in front of it gives the same rows, whatever follows - for runs of any length. -/
+theorem reorder_step_keeps_rows (w : Nat) (front mv after : List RT) (es : List Model.Rel.Expr) (rows : List Model.Rel.Row)
+    (hmv : ∀ s ∈ mv, MovableOn w s) (hw : ∀ r ∈ evalR front rows, r.length = w) :
+    evalR (front ++ mv ++ [.derive es] ++ after) rows = evalR (front ++ [.derive es] ++ mv ++ after) rows :=
+  reorder_step_rows w front mv after es rows hmv hw
+
+/-- the row functions are those of the reference semantics -/
+theorem reorder_rows_are_rel_rows (resolve : Model.Rel.Src → Model.Rel.Table) (t : Model.Rel.Table)
+    (es : List Model.Rel.Expr) (ks : List Model.Rel.SortKey) (lo hi : Option Nat) :
+    (Model.Rel.step resolve t (.derive es)).rows = (RT.derive es).eval t.rows ∧
+    (Model.Rel.step resolve t (.sort ks)).rows = (RT.sort ks).eval t.rows ∧
+    (Model.Rel.step resolve t (.take lo hi)).rows = (RT.take lo hi).eval t.rows := eval_is_rel_step resolve t es ks lo hi
+
+/-- **window_not_hoisted_over_take.** The restriction to plain computes is necessary: a compute that looks at other
+rows (the column total, as a window `sum` does) gives different values when it is evaluated before the take. -/
+theorem window_not_hoisted_over_take :
+    let total : List Model.Rel.Row → List Model.Rel.Row := fun rows =>
+      rows.map (· ++ [Model.Rel.Value.int (rows.foldl (fun a r => a + (match r.getD 0 .null with | .int n => n | _ => 0)) 0)])
+    evalR [.take none (some 2), .fixed total] [[.int 1], [.int 2], [.int 3]] ≠
+    evalR [.fixed total, .take none (some 2)] [[.int 1], [.int 2], [.int 3]] := windowed_over_take_counterexample
+
+/-- non-vacuity: `sort c0 | take 2 | derive c0 + 1` on three rows of width 1: the hypotheses hold and the derive may lead -/
+example : (∀ s ∈ [RT.sort [(.col 0, false)], RT.take none (some 2)], MovableOn 1 s) ∧
+    (∀ r ∈ evalR [] [[Model.Rel.Value.int 3], [.int 1], [.int 2]], r.length = 1) := by
+  refine ⟨?_, by decide⟩
+  intro s hs
+  simp only [List.mem_cons, List.not_mem_nil, or_false] at hs
+  rcases hs with rfl | rfl
+  · intro k hk i hi
+    simp only [List.mem_cons, List.not_mem_nil, or_false] at hk
+    subst hk
+    simp [Model.Rel.Expr.reads] at hi
+    omega
+  · trivial
+
+/-- the pass itself on a small pipeline of the back end's transforms: the plain compute passes the take and the sort, not the filter -/
+example : reorderTr [.from [0], .filter (.col 0), .sort [0], .take .nil [] [], .compute { id := 1, expr := .col 0, win := none, isAgg := false }] =
+    [.from [0], .filter (.col 0), .compute { id := 1, expr := .col 0, win := none, isAgg := false }, .sort [0], .take .nil [] []] := by decide
+
+/-- … and a windowed compute stops at the take -/
+example : reorderTr [.from [0], .sort [0], .take .nil [] [], .compute { id := 1, expr := .col 0, win := some [], isAgg := false }] =
+    [.from [0], .sort [0], .take .nil [] [], .compute { id := 1, expr := .col 0, win := some [], isAgg := false }] := by decide
+
+end Reorder
 
 end Props.C01
